@@ -78,8 +78,8 @@ class AbstractTable(ABC):
     @abstractmethod
     def __array__(self, dtype=None):
         pass
-    def __array_ufunc__(self, ufunc, method, *args, **kws):
-        raise NotImplementedError
+    # opt out of numpy's ufunc dispatch, so that a numpy scalar on the left defers to the table's reflected operator
+    __array_ufunc__ = None
     def __getattr__(self, attr):
         if attr in ("shape", "ndim"):
             return getattr(self.__array__(), attr)
